@@ -359,6 +359,26 @@ theorem sem_wide_unroutable (c : Cfg) (rw : Nat) (idx : Key → Nat) (routable :
     (MW c rw idx).Reach ws ∧ ∀ k, routable k = false → ∀ i, ws i k = KS.init :=
   ⟨wideR_reach c rw idx routable ws hr, wideR_unroutable_untouched c rw idx routable ws hr⟩
 
+/-- **routing must be a pure function of the key**: if the shard the routing code names depends only on the key
+    (`Router.Pure`) — not on lookup history, memo tables, or on other containers created or used in the process
+    (`HAct.other`) — then every reachable state of the sharded map with that router is a reachable state of `MW`,
+    so exclusion, arrival order, hand-off and no-residue (`sem_wide`) hold; in particular a held key's shard never
+    changes. The harness checks the hypothesis on the implementation (`wide-routing-changed`, `routing-unstable`). -/
+theorem sem_wide_pure_routing {ρ : Type} (c : Cfg) (hc : Proved c) (rw : Nat) (hrw : 1 ≤ rw) (R : Router ρ) (r0 : ρ)
+    (idx : Key → Nat) (hp : R.Pure idx) (s : WState × ρ) (hr : (MWH c rw R r0).Reach s) (k : Key) :
+    (MW c rw idx).Reach s.1 ∧ wsum (s.1 (idx k) k).holders ≤ rw ∧ (∀ i, i ≠ idx k → s.1 i k = KS.init) := by
+  have h := pure_router_reach c rw R r0 idx hp s hr
+  have hw := sem_wide c hc rw hrw idx s.1 h k
+  exact ⟨h, hw.1, hw.2.2.1⟩
+
+/-- and the hypothesis is necessary: a router whose answer another container can flip (state `Bool`, shard 0 or 1)
+    lets a second writer in beside the first — repaired guard, rwRatio 2, key 5: one writer in each of two shards -/
+theorem witness_history_dependent_routing :
+    let R : Router Bool := ⟨fun b _ => (if b then 1 else 0, b), fun b => !b⟩
+    ((MWH ⟨.emptyAndIdle⟩ 2 R false).run ((winit, false) : WState × Bool)
+        [.act (.acquire 1 5 true), .other, .act (.acquire 2 5 true)]).map
+      (fun s => ((s.1 0 5).holders, (s.1 1 5).holders)) = some ([(1, 2)], [(2, 2)]) := by decide
+
 /-! ### today's guard: the property is false (concrete runs; the same scripts are replayed on the Go code) -/
 
 /-- `emptyOnly`: two readers, one leaves (entry deleted under the other), a writer is admitted beside it -/
